@@ -16,6 +16,7 @@ let channels : (string * ((string * string) list -> string)) list = [
   ("chunks", Chan_split.run_ranges true);
   ("scc", Chan_scc.run);
   ("scccli", Chan_scc.run_cli);
+  ("sccbig", Chan_scc.run_big);
   ("llpcomb", Chan_llp.run_comb);
   ("llpranks", Chan_llp.run_ranks);
   ("llpinv", Chan_llp.run_inv);
